@@ -135,9 +135,10 @@ class NpProxy:
 
     @staticmethod
     def isnan(x):
-        if any_sym(x):
+        if any_sym(x) or (isinstance(x, _np.ndarray) and x.dtype == object):
             if isinstance(x, _np.ndarray):
-                return _np.zeros(x.shape, dtype=bool)
+                # symbolic values are finite reals; concrete members are tested one by one
+                return _np.array([False if is_sym(v) else bool(_np.isnan(float(v))) for v in x.ravel()], dtype=bool).reshape(x.shape)
             return False
         return _np.isnan(x)
 
